@@ -58,6 +58,11 @@ def grid():
             '{{#if a}}B{{else if b}}C{{%selse%s}}D{{/if}}', '{{#each a}}B{{%selse unless b%s}}C{{/each}}', '{{%s> p%s}}', '{{%s#> p%s}}B{{/p}}',
             '{{#> p}}B{{%s/p%s}}', '{{%s*d%s}}', '{{%s#*inline "n"%s}}B{{/inline}}', '{{#*inline "n"}}B{{%s/inline%s}}',
             '{{{{%sraw%s}}}}B{{{{/raw}}}}', '{{{{raw}}}}B{{{{%s/raw%s}}}}', '{{%sh 1 k=2%s}}', '{{%s#h a as |v i|%s}}B{{/h}}', '{{id (%sh 1%s)}}']
+    # block-parameter lists of every length, in every tag kind that takes them
+    for head in ('{{#h x %s}}B{{/h}}', '{{#each a %s}}B{{/each}}', '{{#if a}}B{{else h x %s}}C{{/if}}', '{{#*inline "p" %s}}B{{/inline}}',
+                 '{{{{raw %s}}}}B{{{{/raw}}}}', '{{#> p %s}}B{{/p}}', '{{h x %s}}', '{{#with a %s~}}B{{/with}}'):
+        for bp in ('as ||', 'as | |', 'as |a|', 'as |a b|', 'as |a b c|', 'as |', 'as', 'as |a', 'as a|', 'as |a,b|', 'as |1|', 'as |a.b|'):
+            out.append(head % bp)
     for t in tags:
         for a in ('', '~'):
             for b in ('', '~'):
@@ -133,4 +138,4 @@ def relevant_difference(c, mo, io):
     return True
 
 def known_F1_tilde_else_chain(c, mo, io):
-    return bool(re.search(r'\{\{~\s*(else|\^)\s+\S', c['src'])) and io is not None and 'PANIC' in io
+    return bool(re.search(r'\{\{~\s*(else\s+[^}\s~]|\^\s*[^}\s~])', c['src'])) and io is not None and 'PANIC' in io
